@@ -403,6 +403,21 @@ fn operator_from_name(name: &str) -> Option<BinaryOperator> {
     }
 }
 
+/// A negative number is a unary minus applied to a number, so that it is
+/// parenthesized like one: the operand of `-` in `-a` with `a = -5` must not
+/// come out as `--5`, which starts a comment.
+fn number_expr(text: String) -> sql_ast::Expr {
+    match text.strip_prefix('-') {
+        Some(abs) => sql_ast::Expr::UnaryOp {
+            op: UnaryOperator::Minus,
+            expr: Box::new(sql_ast::Expr::Value(
+                Value::Number(abs.to_string(), false).into(),
+            )),
+        },
+        None => sql_ast::Expr::Value(Value::Number(text, false).into()),
+    }
+}
+
 pub(super) fn translate_literal(l: Literal, ctx: &Context) -> Result<sql_ast::Expr> {
     Ok(match l {
         Literal::Null => sql_ast::Expr::Value(Value::Null.into()),
@@ -413,8 +428,8 @@ pub(super) fn translate_literal(l: Literal, ctx: &Context) -> Result<sql_ast::Ex
             sql_ast::Expr::Value(Value::SingleQuotedString(s.replace('\'', "''")).into())
         }
         Literal::Boolean(b) => sql_ast::Expr::Value(Value::Boolean(b).into()),
-        Literal::Float(f) => sql_ast::Expr::Value(Value::Number(format!("{f:?}"), false).into()),
-        Literal::Integer(i) => sql_ast::Expr::Value(Value::Number(format!("{i}"), false).into()),
+        Literal::Float(f) => number_expr(format!("{f:?}")),
+        Literal::Integer(i) => number_expr(format!("{i}")),
         Literal::Date(value) => translate_datetime_literal(sql_ast::DataType::Date, value, ctx),
         Literal::Time(value) => translate_datetime_literal(
             sql_ast::DataType::Time(None, sql_ast::TimezoneInfo::None),
